@@ -749,6 +749,17 @@ func (c *CtrlCloud) SnapshotLocked() CSnapshot {
 	return s
 }
 
+// VSWFree returns the free address count per vSwitch.
+func (c *CtrlCloud) VSWFree() map[string]int64 {
+	c.mu.Lock()
+	defer c.mu.Unlock()
+	out := map[string]int64{}
+	for id, v := range c.VSWs {
+		out[id] = v.Free
+	}
+	return out
+}
+
 func (c *CtrlCloud) Calls() []CCall {
 	c.mu.Lock()
 	defer c.mu.Unlock()
